@@ -196,6 +196,10 @@ def check_shape(c, repo):
     for f in repo.package_funcs():
         if f.module.name not in ('screen', 'ANSI') or f.cls is None:
             continue
+        if f.qual in ('screen:screen.scroll_up', 'screen:screen.scroll_down'):
+            n_store += 1
+            check_scroll(c, f, aspects=('height',))      # aliasing / content of the move: C19-D8
+            continue
         for st in iter_nodes(f.node):
             if isinstance(st, (ast.Assign, ast.AugAssign)):
                 for tg in assigned_targets(st):
@@ -210,8 +214,6 @@ def check_shape(c, repo):
                             c.check(f.name == '__init__', f, st, 'the grid object is created only by the constructor', kind='ast', tag='w-rebind:' + f.qual)
                         elif depth == 2:
                             check_cell_store(c, f, st, tg)
-                        elif depth == 1 and isinstance(tg.slice, ast.Slice):
-                            check_row_move(c, f, st, tg, aspects=('height',))      # aliasing / content of the move: C19-D8
                         else:
                             c.bad(f, st, 'a whole row is replaced (%s): the row may end up with a different width' % norm(tg), kind='ast', tag='row-store:' + f.qual)
             elif isinstance(st, ast.Call) and isinstance(st.func, ast.Attribute) and st.func.attr in ('append', 'pop', 'insert', 'remove', 'extend', 'clear'):
@@ -296,20 +298,20 @@ def check_cell_store(c, f, st, tg):
     c.check(singles, f, st, 'exactly one character is stored (ch[0])', witness=norm(v), kind='ast', tag='cell-single:' + f.qual)
 
 
-def check_row_move(c, f, st, tg, aspects=('height', 'alias', 'content')):
-    v = st.value
+def check_scroll(c, f, aspects=('height', 'alias', 'content')):
+    """scroll_up / scroll_down as a whole, whatever list operations they are written with (slice assignment, insert + del, ...)"""
     up = f.name == 'scroll_up'
-    probs = row_move_semantics(f, tg, v, up)
+    probs, why = scroll_semantics(f, up)
     if probs is None:
-        raise AnalysisError('%s: row move %s not understood' % (f.qual, norm(st)))
+        raise AnalysisError('%s: statement not understood by the abstract grid evaluation: %s' % (f.qual, why))
     kinds = dict(probs)
-    c.check('height' not in kinds, f, st, 'the slice assignment replaces exactly as many rows as it removes, for every grid height and every scroll '
+    c.check('height' not in kinds, f, None, 'the routine leaves the grid with exactly as many rows as before, for every grid height and every scroll '
             'region the clamps allow (abstract evaluation over heights 1,2,3,5 x all start/end)', witness=kinds.get('height'), kind='alg', tag='move-count:' + f.name)
     if 'alias' in aspects:
-        c.check('alias' not in kinds, f, st, 'no two grid rows are the same list object afterwards (moved rows are copied or moved, never shared)',
+        c.check('alias' not in kinds, f, None, 'no two grid rows are the same list object afterwards (moved rows are copied or moved, never shared)',
                 witness=kinds.get('alias'), kind='alg', tag='move-copied:' + f.name)
     if 'content' in aspects:
-        c.check('content' not in kinds, f, st, 'rows inside the scroll region move %s by exactly one line, rows outside keep their content' % ('up' if up else 'down'),
+        c.check('content' not in kinds, f, None, 'rows inside the scroll region move %s by exactly one line, rows outside keep their content' % ('up' if up else 'down'),
                 witness=kinds.get('content'), kind='alg', tag='move-shift:' + f.name)
 
 
@@ -350,7 +352,7 @@ def _rows_expr(e, f, env, grid):
         return [RowTok(t.content, object() if fresh else t.obj) for t in inner]
     if isinstance(e, ast.Subscript) and norm(e.value) == 'self.w' and isinstance(e.slice, ast.Slice):
         lo = _int_expr(e.slice.lower, f, env) if e.slice.lower is not None else 0
-        hi = _int_expr(e.slice.upper, f, env) if e.slice.upper is not None else env['rows']
+        hi = _int_expr(e.slice.upper, f, env) if e.slice.upper is not None else len(grid)
         if lo is None or hi is None:
             return None
         return grid[slice(lo, hi)]
@@ -363,9 +365,14 @@ def _one_row(x, f, env, grid):
         return None if r is None else RowTok(r.content, object())
     if isinstance(x, ast.Subscript) and norm(x.value) == 'self.w' and not isinstance(x.slice, ast.Slice):
         i = _int_expr(x.slice, f, env)
-        if i is None or not (-env['rows'] <= i < env['rows']):
+        if i is None:
             return None
+        if not (-len(grid) <= i < len(grid)):
+            raise IndexError(norm(x))
         return grid[i]
+    if isinstance(x, ast.Subscript) and isinstance(x.slice, ast.Slice) and x.slice.lower is None and x.slice.upper is None and x.slice.step is None:
+        r = _one_row(x.value, f, env, grid)          # row[:]  -- a copy of the row
+        return None if r is None else RowTok(r.content, object())
     if isinstance(x, ast.BinOp) and isinstance(x.op, ast.Mult):
         return RowTok('blank', object())
     return None
@@ -388,25 +395,123 @@ def _int_expr(e, f, env):
     return v
 
 
-def row_move_semantics(f, tg, value, up):
-    """Abstractly perform `self.w[lo:hi] = value` for every grid height / scroll region in a small box.
-    None = not understood; else list of problems (kind, text)."""
+class _NotUnderstood(Exception):
+    pass
+
+
+def _is_grid(e):
+    return norm(e) == 'self.w'
+
+
+def _exec_grid_stmt(st, f, env, grid):
+    """perform one statement of a scroll routine on the abstract grid (a python list of RowTok)"""
+    if isinstance(st, ast.Expr) and isinstance(st.value, ast.Constant):
+        return
+    if isinstance(st, ast.Pass):
+        return
+    if isinstance(st, ast.Assign) and len(st.targets) == 1 and isinstance(st.targets[0], ast.Name):
+        if _int_expr(st.value, f, env) is None:
+            raise _NotUnderstood(norm(st))
+        return          # integer temporaries are inlined by lin()
+    if isinstance(st, ast.Assign) and len(st.targets) == 1 and isinstance(st.targets[0], ast.Subscript) and _is_grid(st.targets[0].value):
+        tg = st.targets[0]
+        if isinstance(tg.slice, ast.Slice):
+            lo = _int_expr(tg.slice.lower, f, env) if tg.slice.lower is not None else 0
+            hi = _int_expr(tg.slice.upper, f, env) if tg.slice.upper is not None else len(grid)
+            val = _rows_expr(st.value, f, env, grid)
+            if lo is None or hi is None or val is None or tg.slice.step is not None:
+                raise _NotUnderstood(norm(st))
+            grid[slice(lo, hi)] = val
+        else:
+            i = _int_expr(tg.slice, f, env)
+            r = _one_row(st.value, f, env, grid)
+            if i is None or r is None:
+                raise _NotUnderstood(norm(st))
+            if not (-len(grid) <= i < len(grid)):
+                raise IndexError(norm(st))
+            grid[i] = r
+        return
+    if isinstance(st, ast.Delete) and len(st.targets) == 1 and isinstance(st.targets[0], ast.Subscript) and _is_grid(st.targets[0].value):
+        tg = st.targets[0]
+        if isinstance(tg.slice, ast.Slice):
+            lo = _int_expr(tg.slice.lower, f, env) if tg.slice.lower is not None else 0
+            hi = _int_expr(tg.slice.upper, f, env) if tg.slice.upper is not None else len(grid)
+            if lo is None or hi is None:
+                raise _NotUnderstood(norm(st))
+            del grid[slice(lo, hi)]
+        else:
+            i = _int_expr(tg.slice, f, env)
+            if i is None:
+                raise _NotUnderstood(norm(st))
+            if not (-len(grid) <= i < len(grid)):
+                raise IndexError(norm(st))
+            del grid[i]
+        return
+    if isinstance(st, ast.Expr) and isinstance(st.value, ast.Call) and isinstance(st.value.func, ast.Attribute) and _is_grid(st.value.func.value):
+        k = st.value
+        m = k.func.attr
+        if m == 'insert' and len(k.args) == 2:
+            i = _int_expr(k.args[0], f, env)
+            r = _one_row(k.args[1], f, env, grid)
+            if i is None or r is None:
+                raise _NotUnderstood(norm(st))
+            grid.insert(i, r)
+            return
+        if m == 'append' and len(k.args) == 1:
+            r = _one_row(k.args[0], f, env, grid)
+            if r is None:
+                raise _NotUnderstood(norm(st))
+            grid.append(r)
+            return
+        if m == 'pop' and len(k.args) <= 1:
+            i = _int_expr(k.args[0], f, env) if k.args else -1
+            if i is None:
+                raise _NotUnderstood(norm(st))
+            if not grid or not (-len(grid) <= i < len(grid)):
+                raise IndexError(norm(st))
+            grid.pop(i)
+            return
+        raise _NotUnderstood(norm(st))
+    if isinstance(st, ast.If):
+        t = st.test
+        if isinstance(t, ast.Compare) and len(t.ops) == 1:
+            a_, b_ = _int_expr(t.left, f, env), _int_expr(t.comparators[0], f, env)
+            if a_ is not None and b_ is not None:
+                import operator as _op
+                fn = {ast.Lt: _op.lt, ast.LtE: _op.le, ast.Gt: _op.gt, ast.GtE: _op.ge, ast.Eq: _op.eq, ast.NotEq: _op.ne}.get(type(t.ops[0]))
+                if fn is not None:
+                    for s2 in (st.body if fn(a_, b_) else st.orelse):
+                        _exec_grid_stmt(s2, f, env, grid)
+                    return
+        raise _NotUnderstood(norm(st.test))
+    if isinstance(st, ast.Return) and st.value is None:
+        raise StopIteration
+    raise _NotUnderstood(norm(st))
+
+
+def scroll_semantics(f, up):
+    """Abstractly run the whole body of scroll_up / scroll_down on a grid of row tokens, for every grid height in a small box and
+    every scroll region the clamps allow.  None = a statement is not understood; else the problems found, by kind."""
     probs = {}
     for rows in (1, 2, 3, 5):
         for start in range(1, rows + 1):
             for end in range(1, rows + 1):
                 env = {'rows': rows, 'start': start, 'end': end}
                 grid = [RowTok(i, ('old', i)) for i in range(rows)]
-                lo = _int_expr(tg.slice.lower, f, env) if tg.slice.lower is not None else 0
-                hi = _int_expr(tg.slice.upper, f, env) if tg.slice.upper is not None else rows
-                val = _rows_expr(value, f, env, grid)
-                if lo is None or hi is None or val is None:
-                    return None
-                new = list(grid)
-                new[slice(lo, hi)] = val
                 where = 'with %d rows and scroll region %d..%d' % (rows, start, end)
+                try:
+                    for st in f.node.body:
+                        _exec_grid_stmt(st, f, env, grid)
+                except StopIteration:
+                    pass
+                except IndexError as e:
+                    probs.setdefault('height', '%s `%s` raises IndexError' % (where, e))
+                    continue
+                except _NotUnderstood as e:
+                    return None, str(e)
+                new = grid
                 if len(new) != rows:
-                    probs.setdefault('height', '%s the assignment turns the grid into %d rows%s' % (
+                    probs.setdefault('height', '%s the routine leaves the grid with %d rows%s' % (
                         where, len(new), ' (top below bottom is allowed by the clamps)' if start > end else ''))
                     continue
                 objs = [id(t.obj) if not isinstance(t.obj, tuple) else t.obj for t in new]
@@ -426,9 +531,10 @@ def row_move_semantics(f, tg, value, up):
                     free = (i == e_ if up else i == s_) and start <= end      # the vacated line: blanked by the caller
                     if got[i] != want[i] and not free:
                         probs.setdefault('content', '%s row %d ends up with the content of old row %s, expected old row %s (rows inside the region '
-                                         'move %s by one, everything else stays)' % (where, i + 1, got[i] if got[i] == 'blank' else got[i] + 1, want[i] + 1, 'up' if up else 'down'))
+                                         'move %s by one, everything else stays -- an inverted region scrolls nothing)'
+                                         % (where, i + 1, got[i] if got[i] == 'blank' else got[i] + 1, want[i] + 1, 'up' if up else 'down'))
                         break
-    return sorted(probs.items())
+    return sorted(probs.items()), None
 
 
 def check_resolve(c, repo, acts):
